@@ -351,6 +351,7 @@ func runCrash(o *Out, _ *rand.Rand, thorough bool) {
 			o.Distinct("shape-outcome")
 		}
 		o.Op(fmt.Sprintf("crash %d", ci), "crash")
+		frontIDs(o, cc, outcome, detail)
 		if outcome == "panic" || outcome == "engine-error" {
 			o.Violate(Violation{Property: "C16", Clause: outcome, Sig: "C16|" + outcome + "|" + cc.Kind + "|" + sigDetail(detail),
 				Detail: shape + ": " + detail, Replay: cc})
@@ -657,4 +658,66 @@ func loadReplayCrash(path string) *crashCase {
 	cc := &crashCase{}
 	loadReplayInto(path, cc)
 	return cc
+}
+
+// frontIDs: for an input whose duration_matrix is the list form, the vehicle ids and the ids each matrix names, with
+// what the code decided about them — accepted (the model was built) or rejected with one of the four id messages of
+// validateTimeDependentMatricesAndIDs; any other outcome says nothing about the ids and writes no line (NR.Front.validateIds).
+func frontIDs(o *Out, cc *crashCase, outcome, detail string) {
+	if cc.JSON == nil {
+		return
+	}
+	list, ok := cc.JSON["duration_matrix"].([]any)
+	if !ok || len(list) == 0 {
+		return
+	}
+	var mats []string
+	for _, e := range list {
+		m, ok := e.(map[string]any)
+		if !ok {
+			return // a plain matrix (rows), not the list form
+		}
+		ids, _ := m["vehicle_ids"].([]any)
+		var xs []string
+		for _, id := range ids {
+			s, ok := id.(string)
+			if !ok || s == "" || strings.ContainsAny(s, " ,.|") {
+				return
+			}
+			xs = append(xs, s)
+		}
+		if len(xs) == 0 {
+			mats = append(mats, "-")
+		} else {
+			mats = append(mats, strings.Join(xs, "."))
+		}
+	}
+	vehicles, _ := cc.JSON["vehicles"].([]any)
+	var vs []string
+	for _, v := range vehicles {
+		vm, _ := v.(map[string]any)
+		id, _ := vm["id"].(string)
+		if id == "" || strings.ContainsAny(id, " ,.|") {
+			return
+		}
+		vs = append(vs, id)
+	}
+	if len(vs) == 0 {
+		return
+	}
+	verdict := ""
+	switch {
+	case outcome == "ok":
+		verdict = "accept"
+	case outcome == "rejected" && (strings.Contains(detail, "vehicle ids are not set for duration matrix") ||
+		strings.Contains(detail, "duplicate vehicle id in duration matrices") ||
+		strings.Contains(detail, "is not defined in duration matrices") ||
+		strings.Contains(detail, "vehicle ids in duration matrices do not match")):
+		verdict = "reject"
+	default:
+		o.Count("front-ids:undecided")
+		return
+	}
+	o.Op("front ids "+strings.Join(vs, ",")+" "+strings.Join(mats, "|"), "front ids "+verdict)
+	o.Count("front-ids:" + verdict)
 }
